@@ -48,9 +48,10 @@ def auditedSites : List (String × String) := [
   ("rp.inflight.done", "i.err"),
   ("rp.jsonWebKeySet.UnmarshalJSON", "k.Keys")]
 
-/-- `updateKeys` reads `r.inflight` without the mutex: it is the exclusive owner of the field until it resets it
-    (started by the goroutine that set the field while holding the mutex). -/
-def auditedReads : List (String × String) := [("rp.remoteKeySet.updateKeys", "inflight")]
+/-- reads of mutex-guarded fields without the mutex that are justified by ownership: none any more — `updateKeys` used to
+    read `r.inflight` before taking `r.mu`; since the repair of F-C13b (`inflight.done` inside the critical section) it
+    reads the field under the mutex. -/
+def auditedReads : List (String × String) := []
 
 def knownUnsync : List (String × String) := findingSites ++ auditedSites
 
